@@ -250,6 +250,8 @@ func parserLayers(tier string, menu Menu) []Layer {
 			{Name: "sa-long", Kinds: suffixKinds, BufSizes: []int{16, 100}, Level: 0, Inputs: StructuredSet(17, 40, 130), Menu: menu, Bound: 0},
 			{Name: "sa-multiblock", Kinds: suffixKinds, Geos: multiBlockGeos, Level: 1, Inputs: Union(Binary(10), Ternary(6)), Menu: menu.and(Menu{NTL: true, ParseNil: true, StopEarly: true, ShrinkDev: true}), Bound: 2, CfgPerShard: 1},
 			{Name: "large", Kinds: Kinds, CfgsFn: largeConfigs, Inputs: Union(LargeSet(70000), LargeSet(200003)), Menu: menu, Bound: 1, CfgPerShard: 1, NoTrack: true},
+			{Name: "hash-trickle", Kinds: HashKinds, BufSizes: []int{3, 5, 8, 16}, Level: 0, Inputs: Union(Binary(10), ZeroA(6)), Menu: trickle(menu), Bound: 2},
+			{Name: "sa-trickle", Kinds: suffixKinds, Geos: multiBlockGeos, Level: 1, Inputs: Union(Binary(9), Ternary(5)), Menu: trickle(menu), Bound: 2, CfgPerShard: 1},
 		}
 	}
 	return []Layer{
@@ -261,6 +263,9 @@ func parserLayers(tier string, menu Menu) []Layer {
 		{Name: "sa-b0", Kinds: suffixKinds, BufSizes: []int{1, 2, 3, 5, 8}, Level: 0, Inputs: Union(Binary(5), ZeroA(3)), Menu: menu, Bound: 0},
 		{Name: "sa-b1", Kinds: suffixKinds, BufSizes: []int{3, 5}, Level: 0, Inputs: Binary(4), Menu: menu, Bound: 1},
 		{Name: "sa-multiblock", Kinds: suffixKinds, Geos: multiBlockGeos, Level: 0, Inputs: Binary(8), Menu: menu.and(Menu{NTL: true, ParseNil: true, StopEarly: true, ShrinkDev: true}), Bound: 1, CfgPerShard: 1},
+		// the other default history: data is appended while unparsed data is pending
+		{Name: "hash-trickle", Kinds: HashKinds, BufSizes: []int{8}, Level: 2, Inputs: BinaryRange(4, 6), Menu: trickle(menu), Bound: 1, NoTrack: true},
+		{Name: "sa-trickle", Kinds: suffixKinds, Geos: multiBlockGeos, Level: 0, Inputs: Binary(7), Menu: trickle(menu), Bound: 1, CfgPerShard: 1},
 	}
 }
 
@@ -274,8 +279,14 @@ var multiBlockGeos = []lz.BufConfig{
 	{BufferSize: 8, ShrinkSize: 2, WindowSize: 8, BlockSize: 3},
 }
 
+// trickle switches to the trickle default history and keeps the Parse and Shrink deviations of m.
+func trickle(m Menu) Menu {
+	return Menu{Trickle: true, NTL: m.NTL, ParseNil: m.ParseNil, ShrinkDev: m.ShrinkDev, WriteChunks: m.WriteChunks}
+}
+
 func (m Menu) and(o Menu) Menu {
-	return Menu{m.WriteChunks && o.WriteChunks, m.ReadFrom && o.ReadFrom, m.NTL && o.NTL, m.ParseNil && o.ParseNil, m.StopEarly && o.StopEarly, m.ShrinkDev && o.ShrinkDev, m.Reset && o.Reset, m.Restart && o.Restart}
+	return Menu{WriteChunks: m.WriteChunks && o.WriteChunks, ReadFrom: m.ReadFrom && o.ReadFrom, NTL: m.NTL && o.NTL, ParseNil: m.ParseNil && o.ParseNil, StopEarly: m.StopEarly && o.StopEarly,
+		ShrinkDev: m.ShrinkDev && o.ShrinkDev, Reset: m.Reset && o.Reset, Restart: m.Restart && o.Restart}
 }
 
 func layerBounds(layers []Layer) map[string]any {
